@@ -2300,8 +2300,38 @@ def index_units(tier):
     return us
 
 
+def h_flow_length(ctx, dest_mask, ports, want_body):
+    """A FlowSpec NLRI built by the real factories whose body is want_body octets (destination prefix + `ports` one-octet
+    destination-port values, the first and the last symbolic): RFC 8955 4.1 switches to the two-octet length at 240.  What
+    ExaBGP packs must decode whole to an equal route and pack to the same octets (octet layout of the rule itself is C16)."""
+    from exabgp.bgp.message.update.nlri.flow import Flow, Flow4Destination, FlowDestinationPort, NumericOperator
+    from exabgp.protocol.resource import NumericValue as _NumericValue
+    flow = Flow.make_flow(AFI.ipv4, SAFI.flow_ip)
+    flow.add(Flow4Destination.make_prefix4(bytes([10, 1, 2, 3]), dest_mask))
+    first = ctx.int('port.first', 0, 255)
+    last = ctx.int('port.last', 0, 255)
+    for i in range(ports):
+        v = first if i == 0 else last if i == ports - 1 else 1 + i % 250
+        flow.add(FlowDestinationPort(NumericOperator.EQ, _NumericValue(v)))
+    r = enc_nlri(ctx, 'ipv4-flow:length-%d' % want_body, flow, 1, 133)
+    if r and r[0] == 'round-trip':
+        ctx.check('body-length-as-intended', r[2] in (want_body + 1, want_body + 2), sig='C15:enc:harness:flow-body-length', info={'wire': r[2], 'body': want_body})
+        ctx.cover('flow-body-%d' % want_body)
+    return r
+
+
+def flow_length_units(tier):
+    th = tier == 'thorough'
+    us = []
+    for mask, ports, body in ((16, 117, 239), (24, 117, 240), (32, 117, 241)) + (((24, 2044, 4094), (16, 2045, 4095)) if th else ()):
+        us.append(Unit('enc/nlri/ipv4-flow/length-%d' % body, lambda ctx, m=mask, p=ports, b=body: h_flow_length(ctx, m, p, b),
+                       must_cover=('encoded', 'decoded', 'flow-body-%d' % body), weight=15, max_seconds=600, max_paths=2000, reset=reset_state, hash_const=True))
+    return us
+
+
 def units(tier):
     us = []
+    us += flow_length_units(tier)
     us += nlri_units(tier)
     us += attr_units(tier)
     us += enc_nlri_units(tier)
